@@ -390,3 +390,9 @@ func M_strconv_Atoi(s string) (int, error) {
 	}
 	return Int("Atoi.value"), nil
 }
+
+// M_singleflight_Do: single thread of control - the function is simply called.
+func M_singleflight_Do(g any, key string, fn func() (interface{}, error)) (interface{}, error, bool) {
+	v, err := fn()
+	return v, err, false
+}
